@@ -890,3 +890,117 @@ Proof.
   - exists tg, sn, ts, srv, w. split; [reflexivity|]. split; [exact Hw|].
     destruct cs; vm_compute in E; injection E as <- <- <- <-; repeat split; vm_compute; reflexivity.
 Qed.
+
+(* ---------------------------------------------------------------------------------------- *)
+(* editing a delegated role: change_delegated_targets, operations on the role, sign_targets_editor. The tree then
+   holds, under the same header, the role with the abstract map after those operations; with
+   C10_role_update_frame nothing any other role says itself has changed, and with C10_program_roundtrip /
+   C10_loaded_tree_exact this tree is what a client loads after the final sign. *)
+Theorem role_edit_seen r st top R st1 seg keys st3 old :
+  R <> name_targets_role ->
+  rd_top st = Some top -> find_role_in R top = Some old ->
+  ed_step r st (OpChange R) = Some st1 ->
+  forallb stays seg = true ->
+  ed_step r (fst (ed_run r st1 seg)) (OpSignEditor keys) = Some st3 ->
+  exists top3 c, rd_top st3 = Some top3 /\ rd_te st3 = None /\ find_role_in R top3 = Some c /\ en_hdr c = en_hdr old
+                 /\ forall n, lookup_target n (en_entries c) = spec_targets seg (fun x => lookup_target x (en_entries old)) n.
+Proof.
+  intros HR Htop Hold Hch Hs Hsign.
+  assert (bytes_eqb R name_targets_role = false) as HRb by (apply bytes_eqb_neq; exact HR).
+  cbn [ed_step] in Hch. destruct (rd_te st) eqn:Hte0; [discriminate|]. rewrite Htop, HRb, Hold in Hch.
+  destruct (parent_in R top) as [[dk sibs]|]; [|discriminate]. inversion Hch; subst st1; clear Hch.
+  set (te0 := ted_from R (HDeleg dk sibs) old) in *.
+  destruct (run_stays r seg (with_te st te0) te0 eq_refl I Hs) as (te' & K1 & K2 & K3 & K4 & K5 & Kc & K6).
+  set (st2 := fst (ed_run r (with_te st te0) seg)) in *.
+  cbn [ed_step] in Hsign. unfold sign_editor in Hsign. rewrite K1 in Hsign.
+  destruct (ted_build r te' keys) as [doc|] eqn:B; [|discriminate].
+  assert (te_name te' = R) as Hn by (rewrite K3; reflexivity). rewrite Hn, HRb in Hsign.
+  rewrite K5 in Hsign. cbn [with_te rd_top] in Hsign. rewrite Htop in Hsign.
+  destruct (replace_role R doc top) as [top3|] eqn:Rp; [|discriminate]. inversion Hsign; subst st3; clear Hsign.
+  destruct (replace_role_sets _ _ _ _ Rp) as (c0 & Hc1 & Hc2). rewrite Hold in Hc1. inversion Hc1; subst c0; clear Hc1.
+  exists top3, (set_content old doc). split; [reflexivity|]. split; [reflexivity|]. split; [exact Hc2|]. split; [reflexivity|].
+  intro n. unfold set_content. cbn [en_entries].
+  assert (en_entries doc = te_entries te') as ->.
+  { unfold ted_build in B. destruct (te_version te'), (te_expires te'); try discriminate.
+    destruct (sign_as r (te_holder te') (te_name te') keys); [|discriminate]. inversion B; subst. reflexivity. }
+  fold (te_lookup te' n). rewrite K6. apply spec_targets_ext. intro x. unfold te_lookup, te_entries, te0. cbn [ted_from te_existing te_new].
+  reflexivity.
+Qed.
+
+(* ---------------------------------------------------------------------------------------- *)
+(* versions and expirations: what the client sees is what was set last *)
+Record settings := { g_tv : option N; g_texp : option Z; g_sv : option N; g_sexp : option Z; g_tsv : option N; g_tsexp : option Z }.
+Definition settings_step (o : edop) (g : settings) : settings :=
+  match o with
+  | OpTargetsVersion v => {| g_tv := Some v; g_texp := g_texp g; g_sv := g_sv g; g_sexp := g_sexp g; g_tsv := g_tsv g; g_tsexp := g_tsexp g |}
+  | OpTargetsExpires e => {| g_tv := g_tv g; g_texp := Some e; g_sv := g_sv g; g_sexp := g_sexp g; g_tsv := g_tsv g; g_tsexp := g_tsexp g |}
+  | OpSnapshotVersion v => {| g_tv := g_tv g; g_texp := g_texp g; g_sv := Some v; g_sexp := g_sexp g; g_tsv := g_tsv g; g_tsexp := g_tsexp g |}
+  | OpSnapshotExpires e => {| g_tv := g_tv g; g_texp := g_texp g; g_sv := g_sv g; g_sexp := Some e; g_tsv := g_tsv g; g_tsexp := g_tsexp g |}
+  | OpTimestampVersion v => {| g_tv := g_tv g; g_texp := g_texp g; g_sv := g_sv g; g_sexp := g_sexp g; g_tsv := Some v; g_tsexp := g_tsexp g |}
+  | OpTimestampExpires e => {| g_tv := g_tv g; g_texp := g_texp g; g_sv := g_sv g; g_sexp := g_sexp g; g_tsv := g_tsv g; g_tsexp := Some e |}
+  | _ => g
+  end.
+Definition settings_of (st : red) (te : ted) : settings :=
+  {| g_tv := te_version te; g_texp := te_expires te; g_sv := rd_sv st; g_sexp := rd_sexp st; g_tsv := rd_tsv st; g_tsexp := rd_tsexp st |}.
+
+Lemma step_settings r st te o st' :
+  rd_te st = Some te -> stays o = true -> ed_step r st o = Some st' ->
+  exists te', rd_te st' = Some te' /\ settings_of st' te' = settings_step o (settings_of st te).
+Proof.
+  intros Hte Hs H. destruct o; try discriminate Hs; cbn [ed_step] in H; rewrite ?Hte in H;
+    try (inversion H; subst; clear H; eexists; split; [cbn; try rewrite Hte; reflexivity|]; reflexivity).
+  destruct (if bytes_eqb name name_targets_role then [] else keys); [discriminate|]. inversion H; subst; clear H.
+  eexists. split; [reflexivity|]. reflexivity.
+Qed.
+
+Lemma refused_settings r st te o : rd_te st = Some te -> stays o = true -> ed_step r st o = None ->
+  forall g, settings_step o g = g.
+Proof.
+  intros Hte S H g. destruct o; try discriminate S; cbn [ed_step] in H; rewrite ?Hte in H; try discriminate. reflexivity.
+Qed.
+
+Lemma run_settings r : forall ops st te, rd_te st = Some te -> forallb stays ops = true ->
+  exists te', rd_te (fst (ed_run r st ops)) = Some te'
+              /\ settings_of (fst (ed_run r st ops)) te' = fold_left (fun g o => settings_step o g) ops (settings_of st te).
+Proof.
+  induction ops as [|o ops IH]; intros st te Hte Hs; cbn [ed_run fst fold_left].
+  - exists te. split; [exact Hte|reflexivity].
+  - cbn [forallb] in Hs. apply andb_true_iff in Hs as [So Hs]. destruct (ed_step r st o) as [st'|] eqn:S.
+    + destruct (step_settings r st te o st' Hte So S) as (te1 & Hte1 & Hg1).
+      destruct (IH st' te1 Hte1 Hs) as (te' & H1 & H2). destruct (ed_run r st' ops) as [s out]. cbn [fst] in *.
+      exists te'. split; [exact H1|]. rewrite H2, Hg1. reflexivity.
+    + destruct (IH st te Hte Hs) as (te' & H1 & H2). destruct (ed_run r st ops) as [s out]. cbn [fst] in *.
+      exists te'. split; [exact H1|]. rewrite H2, (refused_settings r st te o Hte So S). reflexivity.
+Qed.
+
+Lemma sign_tree_settings len_of dig_of r e dkeys ch keys tg sn ts srv :
+  ed_sign_tree len_of dig_of r e dkeys ch keys = Some (tg, sn, ts, srv) ->
+  tg_version tg = e_tv e /\ tg_expires tg = e_texp e /\ sn_version sn = e_sv e /\ sn_expires sn = e_sexp e
+  /\ ts_version ts = e_tsv e /\ ts_expires ts = e_tsexp e.
+Proof.
+  unfold ed_sign_tree, ed_sign_tree_gen.
+  destruct (signed_role r 2 keys), (signed_role r 1 keys), (signed_role r 3 keys); try discriminate.
+  destruct (_ && _); [|discriminate]. destruct (validate _); [|discriminate].
+  intro H. inversion H; subst. repeat split.
+Qed.
+
+Theorem program_settings_seen (len_of dig_of : content -> N) r pre seg keys te0 tg sn ts srv :
+  rd_te (fst (ed_run r red_new pre)) = Some te0 ->
+  forallb stays seg = true ->
+  ed_program_sign len_of dig_of r (pre ++ seg) keys = Some (tg, sn, ts, srv) ->
+  fold_left (fun g o => settings_step o g) seg (settings_of (fst (ed_run r red_new pre)) te0)
+  = {| g_tv := Some (tg_version tg); g_texp := Some (tg_expires tg); g_sv := Some (sn_version sn); g_sexp := Some (sn_expires sn);
+       g_tsv := Some (ts_version ts); g_tsexp := Some (ts_expires ts) |}.
+Proof.
+  intros Hte Hs Hsign. unfold ed_program_sign in Hsign. rewrite run_app in Hsign.
+  destruct (run_settings r seg _ te0 Hte Hs) as (te' & H1 & H2). rewrite <- H2.
+  unfold ed_at_sign in Hsign. rewrite H1 in Hsign.
+  set (st' := fst (ed_run r (fst (ed_run r red_new pre)) seg)) in *.
+  unfold settings_of.
+  destruct (rd_sv st'); [|discriminate]. destruct (rd_sexp st'); [|discriminate].
+  destruct (rd_tsv st'); [|discriminate]. destruct (rd_tsexp st'); [|discriminate].
+  destruct (bytes_eqb (te_name te') name_targets_role); [|discriminate].
+  destruct (te_version te'); [|discriminate]. destruct (te_expires te'); [|discriminate].
+  apply sign_tree_settings in Hsign as (E1 & E2 & E3 & E4 & E5 & E6). cbn [ss_edit e_tv e_texp e_sv e_sexp e_tsv e_tsexp] in *.
+  rewrite E1, E2, E3, E4, E5, E6. reflexivity.
+Qed.
